@@ -253,16 +253,16 @@ PROPS['C05'] = dict(
     title='Existing bitstreams keep decoding to the same geometry, in the same order',
     technique='runtime monitoring: frozen-corpus regression oracle (ordered 128-bit digests recorded at freeze time) + version-rewrite matrix; ASan/UBSan slice',
     level='exploration',
-    level_text=('Every stream of a committed corpus - the 25 legacy testdata files (bitstream 1.1 .. 2.3, writers 0.9.0 .. current) and 734 streams frozen from the current encoder (700 small ones over the C01 generator + 34 larger ones with long, high-entropy symbol sequences) (all methods, '
+    level_text=('Every stream of a committed corpus - the 25 legacy testdata files (bitstream 1.1 .. 2.3, writers 0.9.0 .. current) and 742 further frozen streams (700 small ones from the current encoder over the C01 generator, 34 larger ones with long, high-entropy symbol sequences, 8 hand-made streams S0xx that reach the decoders of the deprecated prediction methods 2 and 3 and the pre-2.3 kd-tree payloads) (all methods, '
                 'sub-methods, speeds, prediction schemes, attribute layouts, metadata) - is decoded through three entry points and its ordered digest (point count, faces in order, per attribute descriptor and values '
                 'in point order, metadata tree) must equal the digest recorded when the corpus was frozen; legacy test_nm streams are additionally anchored to testdata/test_nm.obj. For rewritten headers, every '
                 '(major, minor) above the supported maximum or with major < 1 must be rejected with Status::UNKNOWN_VERSION; supported pairs must not crash.'),
     level_note=('"Any later change" is covered from the freeze date (2026-10-01, tree with the fix: commits of this round) on; the encoder is not held to the frozen bytes, only the decoder to the corpus. '
                 'Corpus regeneration is a deliberate maintenance action (c05_frozen --freeze), never done by a check.'),
-    rule=('cases 0..24 legacy files, next 734 frozen files, then one case per (stream, major byte) with all 256 minor bytes (quick: 2 streams, thorough: 8). Non-trivial = stream has a recorded digest and was decoded / '
+    rule=('cases 0..24 legacy files, next 742 frozen files, then one case per (stream, major byte) with all 256 minor bytes (quick: 2 streams, thorough: 8). Non-trivial = stream has a recorded digest and was decoded / '
           'a version block was evaluated; distinct = hash of the stream (and major).'),
-    runs=[dict(variant='plain', harness='c05_frozen', cases=dict(quick=25 + 734 + 2 * 256, thorough=25 + 734 + 8 * 256), shards=8),
-          dict(variant='asan', harness='c05_frozen', tag='asan-slice', cases=dict(quick=25 + 734 + 2 * 256, thorough=25 + 734 + 8 * 256))],
+    runs=[dict(variant='plain', harness='c05_frozen', cases=dict(quick=25 + 742 + 2 * 256, thorough=25 + 742 + 8 * 256), shards=8),
+          dict(variant='asan', harness='c05_frozen', tag='asan-slice', cases=dict(quick=25 + 742 + 2 * 256, thorough=25 + 742 + 8 * 256))],
     min_nontrivial=1400,
     require_counters={'streams/legacy': 50, 'streams/frozen-current-encoder': 1400, 'legacy_anchor_checked': 24, 'version_pairs_rejected': 200000, 'path/version/1.1': 1, 'path/prediction/method4-*': 10,
                       'path/prediction/method5-*': 10, 'path/prediction/method6-*': 10, 'path/kd_level/6': 10, 'path/edgebreaker_traversal_coder/2': 50},
@@ -347,7 +347,7 @@ PROPS['C14'] = dict(
     title='Mesh-building and clean-up utilities never change what the mesh describes',
     technique='runtime monitoring: before/after canonical-form oracle with independently computed documented removals, dedup post-conditions, independent GPU-rule strip walker; ASan/UBSan',
     level='exploration',
-    level_text=('Five workloads: TriangleSoupMeshBuilder (per-corner and per-face attributes, 1-5 attributes, bit patterns +-0.0 / NaN payloads / denormals compared bitwise), PointCloudBuilder with and without dedup, '
+    level_text=('Five workloads: TriangleSoupMeshBuilder (per-corner and per-face attributes, 1-5 attributes, bit patterns +-0.0 / NaN payloads / denormals compared bitwise), PointCloudBuilder with and without dedup (values set per point in either order, or for all points from a packed array, stride 0, or array-of-structs records with a larger byte stride), '
                 'DeduplicateAttributeValues / DeduplicatePointIds in three orders on hand-built geometries with explicit maps and planted identical values (idempotence, no identical values or points left), '
                 'MeshCleanup::Cleanup with all 8 subsets of the three options of this build (expectation computed from the input: degenerate = two corners on one position entry, exact duplicates must go, '
                 'position-only duplicates may go, unused points/values gone), and MeshStripifier in both output modes decoded by a 20-line strip walker back to exactly the non-degenerate input triangles with orientation.'),
